@@ -167,7 +167,7 @@ func VerifHarness_C12_frame() {
 		if len(w.peer.toNode) == 0 && !w.converged() {
 			verifrt.Advance(11 * time.Minute)
 			if terr := w.k.node.state.CheckTimeouts(); terr != nil {
-				w.restart()
+				w.reconnect() // Node.Run restarts in place
 				verifrt.Reach("C12.timeout.restart")
 			}
 		}
